@@ -100,10 +100,40 @@ func ruleOtherScanners(c *core.Ctx, rule string) {
 				if !(core.FnPkgPath(fn) == parserPkg && fn.Name() == "ParseStreamCallback") {
 					// generic typestate: some Err() call on the same scanner must exist and be a C10-R2 site
 					hasErr := false
+					returned := false
 					for _, r := range *call.Referrers() {
 						if rc, ok := r.(*ssa.Call); ok && isMethod(core.Callee(&rc.Call), "bufio", "Scanner", "Err") {
 							hasErr = true
 						}
+						if _, ok := r.(*ssa.Return); ok {
+							returned = true
+						}
+					}
+					if !hasErr && returned {
+						// a helper that makes the scanner and hands it back (with a buffer of another size, say): the
+						// functions that call the helper are the ones that must consult Err()
+						callers, all := 0, true
+						for _, g := range c.P.Funcs {
+							for _, gb := range g.Blocks {
+								for _, gin := range gb.Instrs {
+									gc, ok := gin.(*ssa.Call)
+									if !ok || core.Callee(&gc.Call) != fn || gc.Referrers() == nil {
+										continue
+									}
+									callers++
+									found := false
+									for _, r := range *gc.Referrers() {
+										if rc, ok := r.(*ssa.Call); ok && isMethod(core.Callee(&rc.Call), "bufio", "Scanner", "Err") {
+											found = true
+										}
+									}
+									if !found {
+										all = false
+									}
+								}
+							}
+						}
+						hasErr = callers > 0 && all
 					}
 					if hasErr {
 						c.Discharge(rule, core.FuncName(fn), "scanner", c.P.Pos(call.Pos()), "Scanner.Err() is consulted (its result is followed by C10-R2)")
